@@ -22,11 +22,12 @@ type scen struct {
 	Prio        []int `json:"prio"` // per prioritized thread: number of Do/Done pairs
 	Bg          int   `json:"bg"`   // number of concurrent InvokeBackgroundTask callers
 	Concurrency int64 `json:"concurrency"`
-	Steps       int   `json:"steps"` // natural length of a body
+	Steps       int   `json:"steps"`         // natural length of a body
+	ShortTO     bool  `json:"short_timeout"` // the invocation's timeout (1ms of virtual time) can expire while the body runs
 }
 
 func (s scen) String() string {
-	return fmt.Sprintf("prio=%v bg=%d concurrency=%d bodysteps=%d", s.Prio, s.Bg, s.Concurrency, s.Steps)
+	return fmt.Sprintf("prio=%v bg=%d concurrency=%d bodysteps=%d shorttimeout=%v", s.Prio, s.Bg, s.Concurrency, s.Steps, s.ShortTO)
 }
 
 type world struct {
@@ -108,7 +109,7 @@ func (w *world) body(inv int, ctx context.Context) {
 	} else if w.doReturned > snap[1] {
 		// a prioritized task began while this body was running: its context must get cancelled
 		vrt.Recv(ctx.Done())
-		if ctx.Err() == context.DeadlineExceeded {
+		if ctx.Err() == context.DeadlineExceeded && !w.sc.ShortTO {
 			w.fail("body of invocation %d was running when a prioritized task began but was never cancelled (only its timeout ended it)", inv)
 		}
 		cancelled = true
@@ -153,7 +154,11 @@ func scenario(sc scen) *vexp.Scenario {
 				for j := 0; j < sc.Bg; j++ {
 					j := j
 					vrt.GoNamed(fmt.Sprintf("bg%d", j), func() {
-						w.mgr.InvokeBackgroundTask(func(ctx context.Context) { w.body(j, ctx) }, time.Hour)
+						to := time.Hour
+						if sc.ShortTO {
+							to = time.Millisecond
+						}
+						w.mgr.InvokeBackgroundTask(func(ctx context.Context) { w.body(j, ctx) }, to)
 						vrt.Event("ghost", w, 0)
 						if w.alive[j] != 0 {
 							w.fail("InvokeBackgroundTask %d returned while %d execution(s) of its body are still running", j, w.alive[j])
@@ -195,6 +200,8 @@ func scenarios(tier string) []scen {
 		{Prio: []int{1}, Bg: 2, Concurrency: 1, Steps: 1},
 		{Prio: nil, Bg: 2, Concurrency: 1, Steps: 2},
 		{Prio: nil, Bg: 2, Concurrency: 2, Steps: 1},
+		{Prio: nil, Bg: 1, Concurrency: 1, Steps: 2, ShortTO: true},
+		{Prio: nil, Bg: 2, Concurrency: 1, Steps: 1, ShortTO: true},
 	}
 	if tier == "thorough" {
 		out = append(out,
